@@ -681,6 +681,12 @@ func init() {
 	specFuncs["startsSlash"] = func(env *cenv, a []tv, _ *ast.CallExpr) (tv, error) {
 		return tv{s: sx("startsSlash", a[0].s), srt: "Bool"}, nil
 	}
+	specFuncs["nResp"] = func(env *cenv, a []tv, _ *ast.CallExpr) (tv, error) {
+		env.e.D.UF("nResp", []string{"Trace"}, "Int")
+		env.e.D.Axiom("nResp:nil", "(= (nResp tr_nil) 0)")
+		env.e.D.Axiom("nResp:nonneg", "(forall ((t Trace)) (! (>= (nResp t) 0) :pattern ((nResp t))))")
+		return tv{s: sx("nResp", a[0].s), t: types.Typ[types.Int], srt: "Int"}, nil
+	}
 	specFuncs["segEnd"] = func(env *cenv, a []tv, _ *ast.CallExpr) (tv, error) {
 		return tv{s: sx("segend", a[0].s), t: types.Typ[types.Int], srt: "Int"}, nil
 	}
